@@ -225,7 +225,12 @@ BLOCK_WITNESSES = [
 ]
 _R1 = 'local first   =  1; -- keep me\n\nlocal second   =   { 1,2 }\nlocal third    =  3\n'
 _R2 = 'local function f()\n  local  a = 1\n\n  local b   =   2\n  return   a+b\nend\n'
+_R3 = "local function f()\n    local   x   =   1\n    return   x  ; -- c\nend\n"
+_R4 = "while true do\n    local   y   =   1\n    break  ; -- c\nend\nlocal   z = 2\n"
 RANGE_BLANK_WITNESSES = [
+    # the last statement of a block out of range, with its semicolon and the comment behind it (round 12: the guard that keeps the original semicolon narrowed to ignored statements)
+    w(_R3, oracle="contains", contains="    return   x  ; -- c\n", range=(_R3.index("local   x"), _R3.index("\n    return"))),
+    w(_R4, oracle="contains", contains="    break  ; -- c\n", range=(_R4.index("local   y"), _R4.index("\n    break"))),
     w(_R1, oracle="contains", contains='local first   =  1; -- keep me\n\nlocal second =', range=(_R1.index("local second"), _R1.index("\nlocal third"))),
     w(_R2, oracle="contains", contains='local function f()\n  local  a = 1\n\n', range=(_R2.index("local b"), _R2.index("\n  return"))),
 ]
@@ -427,8 +432,8 @@ WITNESSES = {
     "C09.range_options": [cli("range_options")], "C15.": [cli("config_search")], "C20.": [cli("option_carriers")],
     "C14.": [cli("write_only_formatted_text"), cli("check_never_writes")], "C13.": [cli("check_never_writes")], "C17.": [cli("stdin_stdout_only")],
     "C18.": [cli("json_diff_reconstructs"), cli("unified_diff_reconstructs"), cli("check_never_writes")],
-    "C01.output_is_printed_ast": LIB_WITNESSES, "C01.verified": LIB_WITNESSES, "C12.sort_iff_enabled": LIB_WITNESSES, "C02.whole_ast": LIB_WITNESSES,
-    "C08.": BLOCK_WITNESSES, "C09.": BLOCK_WITNESSES + RANGE_BLANK_WITNESSES, "C01.semicolon": BLOCK_WITNESSES[-2:], "C01.next_starts": BLOCK_WITNESSES[-2:],
+    "C01.output_is_printed_ast": LIB_WITNESSES, "C01.verified": LIB_WITNESSES + [cli("write_only_formatted_text")], "C12.sort_iff_enabled": LIB_WITNESSES, "C02.whole_ast": LIB_WITNESSES,
+    "C08.": BLOCK_WITNESSES + RANGE_BLANK_WITNESSES[:2], "C09.": BLOCK_WITNESSES + RANGE_BLANK_WITNESSES, "C01.semicolon": BLOCK_WITNESSES[-2:], "C01.next_starts": BLOCK_WITNESSES[-2:],
     "C05.prefix_keeps_parens": PREFIX_WITNESSES, "C05.": EXPR_WITNESSES + BINOP_COMMENT_WITNESSES, "C01.single_line.line_safe": LINE_SAFE_WITNESSES + BINOP_COMMENT_WITNESSES + UNOP_COMMENT_WITNESSES,
     "C05.hanging.line_safe": LINE_SAFE_WITNESSES + BINOP_COMMENT_WITNESSES + UNOP_COMMENT_WITNESSES, "C05.hang_binop.line_safe": LINE_SAFE_WITNESSES, "C01.parenthesise": LINE_SAFE_WITNESSES[:1],
     "C01.unary_operand": UNOP_COMMENT_WITNESSES, "C01.format_expression.line_safe": LINE_SAFE_WITNESSES + BINOP_COMMENT_WITNESSES,
@@ -478,4 +483,4 @@ INDENT_FURTHER_SRC = 'do\n    if a then\n        b()\n  -- two columns in\n    e
 INDENT_FURTHER_WITNESSES = [w(INDENT_FURTHER_SRC, oracle="tree", indent_type=t, indent_width=n) for t in ("Spaces", "Tabs") for n in ("0", "1", "4")]
 FN_WITNESSES = {"should_indent_further": INDENT_FURTHER_WITNESSES, "update_trivia": FEATURE_SET_WITNESSES, "block_contains_nested_function": GOTO_COLLAPSE_WITNESSES + COLLAPSE_LUAU_WITNESSES, "load": [cli("option_carriers")], "load_overrides": [cli("config_search"), cli("option_carriers")], "format_file": [cli("write_only_formatted_text"), cli("check_never_writes")],
                 "format_string": [cli("stdin_stdout_only")], "create_diff": [cli("check_never_writes")], "output_diff_json": [cli("json_diff_reconstructs")],
-                "load_configuration": [cli("config_search")], "find_config_file": [cli("config_search")]}
+                "load_configuration": [cli("config_search")], "find_config_file": [cli("config_search")], "search_config_locations": [cli("config_search")]}
